@@ -1,8 +1,8 @@
 // hapi: end-to-end search harness using esbuild's public API (pkg/api) only, so that it keeps
 // building when internal packages are refactored.
 //
-//   hapi <search> <seed> <count> <workdir>      -> JSON report on stdout
-//   hapi replay <replay.json> <workdir>         -> re-run one recorded case
+//	hapi <search> <seed> <count> <workdir>      -> JSON report on stdout
+//	hapi replay <replay.json> <workdir>         -> re-run one recorded case
 package main
 
 import (
@@ -11,6 +11,7 @@ import (
 	"os"
 	"sort"
 	"strconv"
+	"strings"
 
 	"github.com/evanw/esbuild/verifharness/gen"
 )
@@ -95,6 +96,29 @@ func main() {
 		seed, _ := strconv.ParseUint(os.Args[2], 10, 64)
 		count, _ := strconv.Atoi(os.Args[3])
 		f(gen.New(seed), count, os.Args[4], rep)
+		// minimise the first violation of each class that carries a program
+		seen := map[string]bool{}
+		for i := range rep.Violations {
+			v := &rep.Violations[i]
+			pr, ok := v.Replay.(progReplay)
+			if !ok || seen[v.Class] || len(seen) >= 4 {
+				continue
+			}
+			seen[v.Class] = true
+			parts := strings.Split(v.Class, "/")
+			if len(parts) < 2 {
+				continue
+			}
+			small := minimizeProg(pr.Source, pr.OptName, parts[1], os.Args[4])
+			if len(small) < len(pr.Source) {
+				pr.MinimisedFrom = len(pr.Source)
+				pr.Source = small
+				if res, pan := transformSafe(small, optsFromName(pr.OptName)); pan == "" {
+					pr.Output = string(res.Code)
+				}
+				v.Replay = pr
+			}
+		}
 	}
 	js, _ := json.Marshal(rep)
 	os.Stdout.Write(js)
